@@ -487,7 +487,7 @@ func (s *c02GateSampler) runGate() error {
 	for lo := 0; lo < len(s.seqs); lo += per {
 		hi := min(lo+per, len(s.seqs))
 		var decls strings.Builder
-		decls.WriteString(c02GateDecls + "var c02wix int\n")
+		decls.WriteString(c02GateDecls + "var c02wix int\n" + c02KeyDecl + "\n")
 		kinds := map[string]bool{}
 		var calls []string
 		for i, q := range s.seqs[lo:hi] {
